@@ -423,8 +423,8 @@ func main() {
 					res.Tests = "pass"
 					res.Verdict = "survived"
 					for _, c := range fileChecks[j.rel] {
-						env := append(goenv, "VERIF_REPO="+wt, fmt.Sprintf("VERIF_SCRATCH=mw%d", w), "VERIF_WATCHDOG=200", "VERIF_SEED=1")
-						rc, out := run(*verif, env, 260*time.Second, "./check", c, "quick")
+						env := append(goenv, "VERIF_REPO="+wt, fmt.Sprintf("VERIF_SCRATCH=mw%d", w), "VERIF_WATCHDOG=300", "VERIF_SEED=1")
+						rc, out := run(*verif, env, 400*time.Second, "./check", c, "quick")
 						cr := checkRes{Check: c, RC: rc}
 						if m := reSig.FindStringSubmatch(out); m != nil {
 							cr.Sig = m[1]
